@@ -23,7 +23,7 @@ BUDGET = {
 }
 RULE = (
     "cases: topology (1-2 popen workers | master + via sub | master + socket member) x worker program (idle, receive-"
-    "blocked, busy, sleeping, KeyboardInterrupt-swallowing, extra threads, callback left on a dropped channel, further remote_execs refused on a busy main_thread_only worker) x backend x death of the initiator (SIGKILL at "
+    "blocked, busy, sleeping, KeyboardInterrupt-swallowing, extra threads, callback left on a dropped channel, further remote_execs refused on a busy main_thread_only worker; optionally after one or two bodies that ran to completion) x backend x death of the initiator (SIGKILL at "
     "a generated sync point, byte-exact cut of the initiator->worker stream, normal exit of the main thread, close of "
     "the write side only) or of the via master, optionally while an initiator task streams data.  Oracle: every worker "
     "(and sub) has exited within 16 simulated seconds per hop after the fault.  Non-trivial = the fault fired with at "
